@@ -13,7 +13,7 @@ from .. import check as CK
 from .. import gen, monitor, pool, tlc
 from . import solverprops
 
-FRACS = [0.5, 0.2, 0.08, 0.03]
+FRACS = [1.3, 0.5, 0.2, 0.08, 0.03]          # index 0: above the critical strength (null model)
 N_HIST = {"quick": 70, "thorough": 1500}
 
 
@@ -41,7 +41,7 @@ def run_history(h, seed, hid):
     n, p = 30, 20
     X = gen.design(rng, n, p, rho=0.7)
     sparse_x = bool(rng.integers(2)) and entry not in ("SqrtLasso.path", "GroupLasso.refit")
-    clf = entry.startswith(("SparseLogistic", "ProxNewton"))
+    clf = entry.startswith(("SparseLogistic", "ProxNewton", "LinearSVC"))
     if entry == "MultiTaskBCD.path":
         y = gen.target(rng, X, "reg", n_tasks=2, offset=1.0 if fi else 0.0)
         amax = float(np.max(np.linalg.norm(X.T @ (y - y.mean(0) * fi), axis=1))) / n
@@ -160,19 +160,70 @@ def _execute(h, entry, fi, X, Xs, y, grid, rng, tol, skl, n, p):
         kw["groups"] = [list(map(int, perm[i:i + 4])) for i in range(0, p, 4)]
     if cls != "SparseLogisticRegression" and cls != "GroupLasso":
         kw["p0"] = 2
+    if cls == "LinearSVC":
+        kw = dict(C=[0.05, 0.2, 0.5, 1.0, 2.0][cur], tol=tol, warm_start=True)
     est = getattr(skglm, cls)(**kw)
+    Xcur, ycur = Xs, y
     for op in hist:
         c = op["change"]
+        if c == "new_labels":
+            if clf or cls == "LinearSVC":
+                ycur = -np.asarray(ycur) if int(rng.integers(2)) else np.where(rng.random(len(y)) < 0.3, -np.asarray(y), y)
+            else:
+                ycur = np.asarray(y) * -0.5 + rng.standard_normal(len(y)) * 0.1
+        if c == "new_rows" and cls == "LinearSVC":
+            ycur = -np.asarray(ycur)          # the dual variables index samples: keep n, change the labels
+        elif c == "new_rows":
+            keep = np.sort(rng.choice(n, n - 5, replace=False))
+            Xcur, ycur = Xs[keep], np.asarray(y)[keep]
         if c == "alpha_down":
-            cur = min(cur + 1, 3)
+            cur = min(cur + 1, 4)
         elif c == "alpha_up":
             cur = max(cur - 1, 0)
         elif c == "alpha_down_far":
-            cur = 3
+            cur = 4
+        elif c == "alpha_to_null":
+            cur = 0
         elif c == "toggle_intercept":
             est.set_params(fit_intercept=not est.fit_intercept)
-        est.set_params(alpha=grid[cur])
-        est.fit(Xs, y)
+        if cls == "LinearSVC":
+            est.set_params(C=[0.05, 0.2, 0.5, 1.0, 2.0][cur])
+        else:
+            est.set_params(alpha=grid[cur])
+        est.fit(Xcur, ycur)
+
+
+def _hh(entry, fi, *ops):
+    return dict(entry=entry, fit_intercept=fi, hist=list(ops))
+
+
+_fit = lambda c: dict(op="fit", change=c)                      # noqa: E731
+# permanent directed histories (every one reproduced a defect or a seeded change once)
+SENTINEL_HISTORIES = [
+    _hh("LinearSVC.refit", False, _fit("same"), _fit("new_labels")),
+    _hh("LinearSVC.refit", False, _fit("same"), _fit("new_rows"), _fit("alpha_down")),
+    _hh("SparseLogisticRegression.refit", True, _fit("same"), _fit("new_labels"), _fit("toggle_intercept")),
+    _hh("Lasso.refit", True, _fit("same"), _fit("toggle_intercept"), _fit("alpha_down")),
+    _hh("Lasso.refit", True, _fit("same"), _fit("new_rows"), _fit("alpha_down_far")),
+    _hh("ElasticNet.refit", False, _fit("same"), _fit("new_labels")),
+    _hh("GroupLasso.refit", True, _fit("same"), _fit("alpha_down"), _fit("new_rows")),
+    _hh("AndersonCD.path", True, dict(op="path", order="dec", init="intercept_only", n=3)),
+    # refits from the null model (empty support, non-zero intercept) and back to it
+    _hh("Lasso.refit", True, _fit("same"), _fit("alpha_to_null"), _fit("alpha_down")),
+    _hh("Lasso.refit", True, _fit("same"), _fit("alpha_to_null"), _fit("same"), _fit("alpha_down_far")),
+    _hh("ElasticNet.refit", True, _fit("same"), _fit("alpha_up"), _fit("alpha_up"), _fit("alpha_down")),
+    _hh("SparseLogisticRegression.refit", True, _fit("same"), _fit("alpha_to_null"), _fit("alpha_down")),
+    _hh("GroupLasso.refit", True, _fit("same"), _fit("alpha_to_null"), _fit("alpha_down")),
+    _hh("Lasso.path", True, dict(op="path", order="dec", init="none", n=5)),
+    _hh("ElasticNet.path", True, dict(op="path", order="shuffled", init="intercept_only", n=5)),
+    _hh("AndersonCD.path", True, dict(op="path", order="inc", init="random", n=4)),
+    _hh("Lasso.path", True, dict(op="path", order="shuffled", init="zero", n=4)),
+    _hh("WeightedLasso.path", False, dict(op="path", order="dec", init="random", n=3)),
+    _hh("MultiTaskBCD.path", True, dict(op="path", order="dec", init="none", n=3)),
+    _hh("AndersonCD.solve", False, dict(op="solve", a=2, warm="bigsupp"), dict(op="solve", a=3, warm="reuse"),
+        dict(op="solve", a=1, warm="reuse")),
+    _hh("AndersonCD.solve", True, dict(op="solve", a=1, warm="intercept_only"), dict(op="solve", a=4, warm="reuse")),
+]
 
 
 def run(prop, tier, seed):
@@ -195,7 +246,7 @@ def run(prop, tier, seed):
         ck.add_tlc(dict(distinct=len(hists), states=len(hists), wall_s=r["wall_s"]),
                    name="Path -simulate (history generator, invariant WarmSound)", kind="scenario generator")
         # warm-started solver scenarios from the common scenario space
-        scs, r2 = solverprops.gen_scenarios("ALL", 160 if tier == "quick" else 3000, seed + 7)
+        scs, r2 = solverprops.gen_scenarios("ALL", 100 if tier == "quick" else 1500, seed + 7, density=3)
         scs = [s for s in scs if s["warm"] not in ("none", "infeasible")
                and s["solver"] not in ("FISTA", "LBFGS", "PDCD_WS")]
         ck.add_tlc(dict(distinct=len(scs), states=len(scs), wall_s=r2["wall_s"]),
@@ -205,7 +256,7 @@ def run(prop, tier, seed):
         return ck.finish()
     # de-duplicate histories
     seen, uniq = set(), []
-    for h in hists:
+    for h in SENTINEL_HISTORIES + hists:
         k = json.dumps(h, sort_keys=True)
         if k not in seen:
             seen.add(k)
